@@ -147,6 +147,24 @@ CLAIMS = {
                      "prototype entry) is not visible to the Globals extraction and is covered by the concurrent run only.",
         "technique": "Lean 4 isolation theorem over all schedules + regenerated global-footprint facts + concurrent differential run (-race)",
     },
+    "C01": {
+        "text": "Theorems on the bug-compatible Lean VM (every Go panic is an explicit `.panic site` outcome): the operator layer "
+                "never panics — all 15 binary operators over all pairs of run-time values (every type pair, every payload), unary "
+                "operators, indexing, index assignment, slicing and slice assignment, array repetition — for every heap and "
+                "configuration. The remaining panic outcomes of the dispatch loop all require malformed bytecode (operand-stack "
+                "underflow, missing jump operand, block/dice/annotation state nobody set up), which is C08's subject. The model "
+                "is tied to rollvm.go/types.go by the vm stream: programs compiled by the real parser are run by the real VM and, "
+                "from the bytecode dump, by the Lean VM, comparing value, error text, process text, NumOpCount, generator state "
+                "and variables. Search: the whole public API sequence under recover in a watchdogged child over a corpus of past "
+                "crashes, ill-typed/extreme operands for every operator/method/dice family, generated programs (25% ill-typed), "
+                "byte mutations, multi-program sequences incl. failed ones, random bytes x 13 flag settings x budgets. Twelve "
+                "crash/hang defects found this way were repaired (fix: commits); three architecture-rooted ones are known findings.",
+        "note": TB + "Goroutine-stack/heap exhaustion by parser recursion depth is Go-runtime behaviour: validated with deep/long inputs "
+                     "under a watchdog and memory limit, not proved. Float pow/formatting, dict iteration order, lazily compiled "
+                     "bodies and host callbacks are `unsup` in the model (stream skips and counts them). Parse totality on "
+                     "arbitrary bytes is validated by the search only.",
+        "technique": "Lean 4 totality theorems on a bug-compatible VM model + bytecode-level differential stream + API-sequence crash search",
+    },
 }
 
 NOT_YET = {}
